@@ -4,19 +4,27 @@
    same exploration as a recursive function; Proofs/EngineStackProofs.v proves that this machine
    refines them.  Definitions only.
 
+   Engine::limit_reached():
+     iteration_count += 1; if iteration_count % interval == 0 { limit checks, may answer true }
+
    Engine::next():
      loop {
-       iteration_count += 1; if iteration_count % interval == 0 { limit checks, may `return None` }
+       if limit_reached() { return None }
        while let Some((space, p)) = branch_iter.next() {
          agenda = mode.on_branch(space) ++ [p];
-         match propagate(space, agenda) {
+         match propagate_until(space, agenda, deadline) {
            None                  => {}                                  // failed: next child
-           Some((true,  space))  => { stack.push(replace(branch_iter, split(space))); continue }
+           Some((true,  space))  => { stack.push(replace(branch_iter, split(space)));
+                                      if limit_reached() { return None }        // repair limits_deep
+                                      continue }
            Some((false, space))  => { mode.on_solution(space); return Some(solution) }
          }
        }
        if let Some(parent) = stack.pop() { branch_iter = parent } else { return None }
-     }                                                                                         *)
+     }
+   propagate_until answering None because the deadline has passed (`else if deadline passed {
+   trigger_cleanup(); return None }`) is the oracle `giveup` of Model/Limits.v; the LP block and its
+   fallback root are off, as in Limits.search_lim                                               *)
 Require Import Selen.Model.Prelude Selen.Model.Dom Selen.Model.Views Selen.Model.PropDefs.
 Require Import Selen.Model.Props.Basic Selen.Model.Propagate Selen.Model.Search Selen.Model.Limits.
 
@@ -99,9 +107,11 @@ Section EngineStack.
   Variable interval : Z.
   Variable clock : Z -> bool.
   Variable mlimit : option Z.
+  Variable giveup : list prop -> store -> bool.
 
-  (* the head of `loop { .. }`: count the iteration and, on a multiple of the interval, check the
-     clock and the memory estimate (which reads stack.len() and iteration_count) *)
+  (* Engine::limit_reached, called at the head of `loop { .. }` and after a push: count the step
+     and, on a multiple of the interval, check the clock and the memory estimate (which reads
+     stack.len() and iteration_count) *)
   Definition loop_head (e : estate) : estate + (limit * estate) :=
     match tick interval clock mlimit (length (stack e)) (lst e) with
     | inl l' => inl (mke (cur e) (stack e) (best e) l')
@@ -115,9 +125,9 @@ Section EngineStack.
   | WLimit (w : limit) (e : estate)
   | WExhausted (e : estate).
 
-  (* one evaluation of `while let Some(..) = self.branch_iter.next()`: either its body, or (the
-     iterator is exhausted) the tail of the outer loop — pop — followed by the head of the next
-     outer iteration *)
+  (* one evaluation of `while let Some(..) = self.branch_iter.next()`: either its body (which, on a
+     stalled child, pushes and passes the limit test), or (the iterator is exhausted) the tail of the
+     outer loop — pop — followed by the head of the next outer iteration *)
   Definition while_step (e : estate) : wstep :=
     match biter_next (cur e) with
     | (None, cur') =>
@@ -133,6 +143,8 @@ Section EngineStack.
       let mp := on_branch_props m (best e) in                       (* mode.on_branch(&mut space) *)
       let ps2 := ps1 ++ mp in
       let ag := agenda_with (seq (S bid) (length mp) ++ [bid]) in   (* .chain(once(p)) *)
+      (* the propagation is given up at the deadline: cleanup, return None (is_timed_out() holds) *)
+      if giveup ps2 s then WLimit LTimeout (mke cur' (stack e) (best e) (lst e)) else
       match propagate pick (prop_fuel ps2 s ag) ps2 s ag with
       | PFuel => WFuel
       | PFail => WCont (mke cur' (stack e) (best e) (lst e))
@@ -140,8 +152,12 @@ Section EngineStack.
         if all_fixed s' then
           WYield s' (mke cur' (stack e) (on_solution m (best e) s') (lst e))
         else
-          (* stalled: push the current iterator, branch on the new space, `continue` the while *)
-          WCont (mke (split_on_unassigned ps2 s') (cur' :: stack e) (best e) (lst e))
+          (* stalled: push the current iterator, branch on the new space, test the limits with the
+             deeper stack, `continue` the while *)
+          match loop_head (mke (split_on_unassigned ps2 s') (cur' :: stack e) (best e) (lst e)) with
+          | inl e' => WCont e'
+          | inr (w, e') => WLimit w e'
+          end
       end
     end.
 
@@ -203,7 +219,9 @@ Section EngineStack.
           :: engine_trace_while f e'
       | WYield _ e' =>
         TYield :: match loop_head e' with inl e'' => engine_trace_while f e'' | inr _ => [TLimit] end
-      | WLimit _ _ => [TPop; TLimit]
+      | WLimit _ e' =>
+        [(if (length (stack e) <? length (stack e'))%nat then TPush
+          else if (length (stack e') <? length (stack e))%nat then TPop else TFail); TLimit]
       | WExhausted _ => [TEnd]
       end
     end.
@@ -227,6 +245,7 @@ Section EngineStack.
   Definition engine_search (resume : bool) (calls fuel : nat) (ps : list prop) (s : store)
     : lres + option store :=
     let ag := agenda_with (seq 0 (length ps)) in
+    if giveup ps s then inl (LStop [] None (mkl 0 0) (SLimit LTimeout) 0) else    (* Search::TimedOut *)
     match propagate pick (prop_fuel ps s ag) ps s ag with
     | PFuel => inl LFuel
     | PFail => inr None
@@ -240,7 +259,7 @@ End EngineStack.
 (* the unlimited engine (no timeout, no memory limit; the interval is then irrelevant) *)
 Definition engine_enumerate (pick : sched) (m : mode) (calls fuel : nat) (ps : list prop) (s : store)
   : sresult :=
-  match engine_search pick m 1 never None true calls fuel ps s with
+  match engine_search pick m 1 never None nogiveup true calls fuel ps s with
   | inl LFuel => SFuel
   | inl (LStop sols b _ _ _) => SOk sols b
   | inr None => SOk [] None
